@@ -28,3 +28,18 @@ func vcBitLen(pd *perRawBitData) uint64 {
 	}
 	return 8*uint64(len(pd.bytes)) - 8 + uint64(pd.bitsOffset)
 }
+
+// vcRange is the number of values of a constraint lb..ub (-1 when a bound is missing).
+func vcRange(lb, ub *int64) int64 {
+	if lb == nil || ub == nil {
+		return -1
+	}
+	return *ub - *lb + 1
+}
+
+func vcB2U(b bool) uint64 {
+	if b {
+		return 1
+	}
+	return 0
+}
